@@ -527,7 +527,8 @@ static void check_file_structure(const int* ch, int ndev) {
     uint8_t* bytes = mc_exact(b.data, b.size); size_t nb = b.size; carquet_buffer_destroy(&b);
     carquet_arena_t ar; carquet_arena_init(&ar);
     parquet_file_metadata_t back;
-    st = parquet_parse_file_metadata(bytes, nb, &ar, &back, &err);
+    /* the parsed structure must not depend on the input block (the reader frees its footer buffer right after parsing): parse from a copy that is overwritten and released before anything is compared */
+    { uint8_t* pb = mc_exact(bytes, nb); st = parquet_parse_file_metadata(pb, nb, &ar, &back, &err); memset(pb, 0xDD, nb); free(pb); }
     if (st != CARQUET_OK) mc_fail("file.roundtrip.parse-error", "status=%d msg=%s bytes=%s", st, err.message, mc_hex(bytes, nb, 48));
     else if (!eq_file(&back, &m, true)) { char key[128]; char f[64]; snprintf(f, sizeof f, "%s", g_diff); char* dot = strpbrk(f, " :"); if (dot) *dot = 0; for (char* p = f; *p; p++) if ((*p >= '0' && *p <= '9')) *p = 'N'; snprintf(key, sizeof key, "file.roundtrip.field.%s", f); mc_fail(key, "%s", g_diff); }
     carquet_arena_destroy(&ar);
@@ -568,6 +569,8 @@ static void check_file_structure(const int* ch, int ndev) {
             st = parquet_parse_file_metadata(x, rb.n, &ar, &back, &err);
             char key[160];
             if (st != CARQUET_OK) { snprintf(key, sizeof key, "file.ref-encoded.parse-error.%s", vn); mc_fail(key, "form=%d status=%d msg=%s bytes=%s", form, st, err.message, mc_hex(x, rb.n, 48)); }
+            memset(x, 0xDD, rb.n); free(x); x = NULL;      /* the input block is gone before the parsed structure is looked at */
+            if (st != CARQUET_OK) { }
             else if (!eq_file(&back, &m, false)) { char ff[64]; snprintf(ff, sizeof ff, "%s", g_diff); char* dot = strpbrk(ff, " :"); if (dot) *dot = 0; for (char* p = ff; *p; p++) if ((*p >= '0' && *p <= '9')) *p = 'N';
                 snprintf(key, sizeof key, "file.ref-encoded.field.%s.%s", ff, vn); mc_fail(key, "form=%d: %s", form, g_diff); }
             carquet_arena_destroy(&ar); free(x); ref_buf_free(&rb);
